@@ -720,9 +720,8 @@ func writeEvidence(p *PropDef, tier string, seed uint64, evals, nontriv, distinc
 		if i >= 3 {
 			break
 		}
-		var v any
-		if json.Unmarshal([]byte(s), &v) == nil {
-			ss = append(ss, v)
+		if json.Valid([]byte(s)) {
+			ss = append(ss, json.RawMessage(s))
 		}
 	}
 	if len(ss) == 0 {
